@@ -50,7 +50,7 @@ impl Property for C04 {
         "C04"
     }
     fn rule(&self) -> String {
-        "case = generated program (F-horn / auto / coinductive / supertraits; negative impls; enums) with 4 goals; each goal solved by a fresh SLG and a fresh recursive solver; oracle = compatibility relation of the property (no None-vs-Unique, equal Unique substitutions after erasing lifetimes, Unique is an instance of the other's definite guidance). Non-trivial = (program, goal) where at least one answer is Unique/None and the goal has a quantifier/if/not/conjunction, or the two rendered answers differ; distinct by hash of (program text, goal text).".into()
+        "case = generated program (60 %: F-horn / auto / coinductive / supertraits, negative impls, enums; 10 %: environment fragment of C06 with hypothesis goals; 20 %: associated-type fragment of C07 with Normalize / projection goals; 10 %: built-in-trait fragment of C08) with 4-6 goals; each goal solved by a fresh SLG and a fresh recursive solver; oracle = compatibility relation of the property (no None-vs-Unique, equal Unique substitutions after erasing lifetimes, Unique is an instance of the other's definite guidance). Non-trivial = (program, goal) where at least one answer is Unique/None and the goal has a quantifier/if/not/conjunction, or the two rendered answers differ; distinct by hash of (program text, goal text).".into()
     }
     fn assumptions(&self) -> Vec<String> {
         vec!["programs are only lowered, not coherence/WF checked (the property says: pass lowering)".into(), "lifetime constraints are not compared".into()]
@@ -59,8 +59,16 @@ impl Property for C04 {
         tier.pick(600, 6000)
     }
     fn decode(&self, t: &mut Tape, _tier: Tier) -> PG {
-        let cfg = if t.chance(60) { GenCfg::horn_auto() } else { GenCfg::horn() };
-        super::c01::decode_pg(t, &cfg, &GoalCfg::full(), 4)
+        // no reference semantics is needed here, so every fragment that has a generator takes part
+        match t.choose(10) {
+            6 => super::c06::C06.decode(t, _tier).pg,
+            7 | 8 => super::c07::C07.decode(t, _tier),
+            9 => super::c08::C08.decode(t, _tier),
+            _ => {
+                let cfg = if t.chance(60) { GenCfg::horn_auto() } else { GenCfg::horn() };
+                super::c01::decode_pg(t, &cfg, &GoalCfg::full(), 4)
+            }
+        }
     }
     fn describe(&self, case: &PG) -> Value {
         case.describe()
